@@ -12,7 +12,7 @@ EXTENDS AyCopy, Props_C19
 
 CONSTANTS Mode, MinStages, MaxStages, SafeFlags, CtxOn
 
-VARIABLE edits      \* ghost: the edits made before the copy <<[op, id, pos]>>
+VARIABLE edits      \* ghost: the edits made before the copy <<[op, path, pos]>>
 mvars == <<cvars, edits>>
 
 StageDocs(n) == LET r == DocRange[IF n <= Len(DocRange) THEN n ELSE Len(DocRange)] IN r[1]..r[2]
@@ -35,11 +35,23 @@ PickLoad(i, s) ==
           /\ LoadTree(t, h)
     /\ UNCHANGED edits
 
+\* path of a cell below a root (child map first, then built-in-only entries)
+RECURSIVE PathTo(_, _, _)
+PathTo(h, root, id) ==          \* <<TRUE, path>> or <<FALSE, <<>>>>
+    IF root = id THEN <<TRUE, <<>>>>
+    ELSE LET es == h[root].kids \o SelectSeq(h[root].py, LAMBDA e : \A i \in 1..Len(h[root].kids) : h[root].kids[i][2] # e[2])
+             F[i \in 0..Len(es)] ==
+                IF i = 0 THEN <<FALSE, <<>>>>
+                ELSE IF F[i-1][1] THEN F[i-1]
+                ELSE LET r == PathTo(h, es[i][2], id) IN IF r[1] THEN <<TRUE, <<es[i][1]>> \o r[2]>> ELSE <<FALSE, <<>>>>
+         IN F[Len(es)]
+
 MEdit ==
     \E id \in DOMAIN heap :
-        \/ EditAppend(id) /\ edits' = Append(edits, [op |-> "append", id |-> id, pos |-> 0])
-        \/ \E pos \in 0..2 : EditInsert(id, pos) /\ edits' = Append(edits, [op |-> "insert", id |-> id, pos |-> pos])
-        \/ EditReverse(id) /\ edits' = Append(edits, [op |-> "reverse", id |-> id, pos |-> 0])
+        LET path == PathTo(heap, oroot, id)[2]      \* where the edited list is when it is edited
+        IN \/ EditAppend(id) /\ edits' = Append(edits, [op |-> "append", path |-> path, pos |-> 0])
+           \/ \E pos \in 0..2 : EditInsert(id, pos) /\ edits' = Append(edits, [op |-> "insert", path |-> path, pos |-> pos])
+           \/ EditReverse(id) /\ edits' = Append(edits, [op |-> "reverse", path |-> path, pos |-> 0])
 
 MNext ==
     \/ \E i \in 1..Len(Docs) : Pick(i)
@@ -56,20 +68,9 @@ View == IF phase = "pick" THEN <<hist, phase>>
         ELSE <<heap, oroot, croot, proto, stack, status, phase, nmut, nedit, last, otree, fired>>
 
 ----------------------------------------------------------------------------
-\* path of a cell below a root (child map first, then built-in-only entries)
-RECURSIVE PathTo(_, _, _)
-PathTo(h, root, id) ==          \* <<TRUE, path>> or <<FALSE, <<>>>>
-    IF root = id THEN <<TRUE, <<>>>>
-    ELSE LET es == h[root].kids \o SelectSeq(h[root].py, LAMBDA e : \A i \in 1..Len(h[root].kids) : h[root].kids[i][2] # e[2])
-             F[i \in 0..Len(es)] ==
-                IF i = 0 THEN <<FALSE, <<>>>>
-                ELSE IF F[i-1][1] THEN F[i-1]
-                ELSE LET r == PathTo(h, es[i][2], id) IN IF r[1] THEN <<TRUE, <<es[i][1]>> \o r[2]>> ELSE <<FALSE, <<>>>>
-         IN F[Len(es)]
-
 HistIdx == [j \in 1..Len(hist) |-> hist[j].i]
 HistSafe == [j \in 1..Len(hist) |-> hist[j].safe]
-EditsOut == [j \in 1..Len(edits) |-> [op |-> edits[j].op, pos |-> edits[j].pos, path |-> PathTo(heap, oroot, edits[j].id)[2]]]
+EditsOut == edits
 
 Check(name, ok) ==
     ok \/ (PrintT(ToJson([cex |-> name, h |-> HistIdx, s |-> HistSafe, p |-> proto, e |-> EditsOut, st |-> status,
@@ -86,7 +87,7 @@ Inv_Behaves         == Check("Behaves", CtxOn => BehavesOver(C19_Ctx))
 \* observations about copy.copy (a shallow copy is not in the statement): its own attributes / child list are
 \* those of the original and taking it leaves the original alone
 Inv_ShallowFaithful  == Check("ShallowFaithful", (proto = "copy" /\ Copied /\ nmut = 0 /\ InDomain) => CopyT = otree)
-Inv_ShallowUntouched == Check("ShallowUntouched", (proto = "copy") => OrigUntouched)
+Inv_ShallowUntouched == Check("ShallowUntouched", (proto = "copy" /\ ~(nmut > 0)) => OrigUntouched)
 Prop_Isolated == Isolated
 
 \* the antecedents are reachable: a copied tree in which some child's implicit flags are NOT what its parent
